@@ -29,6 +29,8 @@ import (
 //   idx%3 == 1  registry sweep: every function / operator / macro of every loaded package
 //               x arities 0..max+2 x argument tuples from a pool of every value type
 //   idx%3 == 2  reader only, no limits: strict, fault-tolerant, format-preserving readers and the lexer
+//   and, interleaved as every seventh case, the formals zoo (c03_formals.go): formals lists
+//   enumerated x every definer x every kind of call site x call shapes
 
 func init() {
 	fw.Register(&fw.Prop{
@@ -42,7 +44,7 @@ func init() {
 			"a per-case wall-clock watchdog (120 s, generous: cases take milliseconds) ends the worker; the driver reports the last logged case. Blocking builtins are only reached under a context deadline",
 			"host builtins registered by the harness itself (package verif, which panics on demand) are excluded from the sweep",
 		},
-		Cases:         func(tier string) int { return pick(tier, 12000, 400000) },
+		Cases:         func(tier string) int { return pick(tier, 14000, 466666) }, // 12000 / 400000 + every seventh
 		Run:           c03Run,
 		Init:          c03Init,
 		MinDistinct:   func(tier string) int { return pick(tier, 900, 1200) },
@@ -147,14 +149,26 @@ func c03Watch(w *fw.W, idx int, what string) func() {
 				return
 			default:
 			}
-			fmt.Fprintf(os.Stderr, "WEDGED: case %d (%s) did not return within %v\n", idx, what, c03WatchLimit())
+			fmt.Fprintf(os.Stderr, "WEDGED: case %d (%s) did not return within %v\n", c03CaseIdx, what, c03WatchLimit())
 			os.Exit(7)
 		}
 	}()
 	return func() { close(done) }
 }
 
+// c03CaseIdx: the case number as the driver knows it (a worker runs one case at a time).
+var c03CaseIdx int
+
 func c03Run(w *fw.W, idx int) {
+	c03CaseIdx = idx
+	// every seventh case (7 shares no factor with the usual worker counts, so the family
+	// spreads over all workers) belongs to the formals zoo; the other six keep the
+	// numbering - and so the generators - they had before the zoo was interleaved
+	if idx%7 == 6 {
+		c03Formals(w, idx, idx/7)
+		return
+	}
+	idx -= (idx + 1) / 7
 	switch idx % 3 {
 	case 0:
 		c03Source(w, idx)
